@@ -140,14 +140,21 @@ def main_c03(tier, seed):
         semi = (i % 5 == 4)
         insts.append((semi, gen_instance(rng, nmax=9 if tier == "quick" else 14, nu=rng.randint(0, 4) if semi else 0, m=rng.randint(1, 6))))
     terms, expect, recs = [], [], []
-    for semi, it in insts:
+    prev = {}
+    for ci, (semi, it) in enumerate(insts):
         rk = ranker_for(it)
+        # every other case re-trains one long-lived object per class (fit, predict, fit on other data, predict ...):
+        # the scan must use the forest of the latest training only
+        reuse = (ci % 2 == 0)
+        it.history = prev.get(semi) if reuse else None
         try:
-            opf, st = impl_semi_fit(it) if semi else impl_fit(it)
+            opf, st = impl_semi_fit(it, reuse=reuse) if semi else impl_fit(it, reuse=reuse)
             preds, rel = impl_predict(opf, it)
             exp = preds + rel
         except Exception as ex:
             st, preds, exp = dict(error=repr(ex)), None, ["error", repr(ex)]
+        if reuse:
+            prev[semi] = it
         terms.append(term_predict(it, rk, semi=semi)); expect.append(exp); recs.append((st, preds))
         rep.count_case(it.key(), it.n >= 3)
     bad = corr(rep, "correspondence Model/Sup.predict_batch vs SupervisedOPF/SemiSupervisedOPF.predict (labels, relevant flags)", "C03", terms, expect, [it for _, it in insts])
@@ -159,7 +166,10 @@ def main_c03(tier, seed):
             msg = "raised " + st["error"]
             nviol += 1
             if nviol <= 3:
-                rep.violation("predict " + msg, it.desc(), key="predict")
+                d = it.desc()
+                if getattr(it, "history", None) is not None:
+                    d["same_object_previously_fitted_and_queried_on"] = it.history.desc()
+                rep.violation("predict " + msg, d, key="predict")
             continue
         nt = it.n + it.nu
         for qi in range(it.m):
@@ -169,6 +179,8 @@ def main_c03(tier, seed):
                 nviol += 1
                 if nviol <= 3:
                     d = it.desc(); d["query_row"] = qi; d["semi"] = semi
+                    if getattr(it, "history", None) is not None:
+                        d["same_object_previously_fitted_and_queried_on"] = it.history.desc()
                     rep.violation("prediction is not an exhaustive minimiser: " + msg, d, key="predict")
                 break
     rep.extra["oracle_violations"] = nviol
